@@ -113,8 +113,11 @@ def run_job(fs, env, job, entry="cli", fault=None, stage=True):
     try:
         try:
             if entry == "api":
-                shroud.create_wrapper(job.api["filename"], outdir=job.api["outdir"],
-                                      path=list(job.api["path"]))
+                if job.api.get("path") is None:
+                    shroud.create_wrapper(job.api["filename"], outdir=job.api["outdir"])
+                else:
+                    shroud.create_wrapper(job.api["filename"], outdir=job.api["outdir"],
+                                          path=list(job.api["path"]))
             elif entry == "args" and hasattr(shroud.main, "main_with_args"):
                 captured = []
                 real = shroud.main.main_with_args
